@@ -53,6 +53,12 @@ def run(ctx, col, tier):
     from ..rules import zerolen
     zerolen.run(ctx, col, ('swcgeom.transforms.branch', 'swcgeom.transforms.branch_tree', 'swcgeom.transforms.tree'))
     col.guard(one_to_one, ctx, col)
+    col.guard(positional_trim, ctx, col)
+    from ..rules import orderdep as _orderdep
+    col.rule("R-ORDER", "the decomposition the resamplers and smoothers work on does not depend on the node numbering: no recurrence along the row order (either direction) in "
+             "the branch / path decomposition and the resampling code", floor=1)
+    col.guard(_orderdep.check, ctx, col, "R-ORDER", ("swcgeom.core.tree", "swcgeom.core.branch_tree", "swcgeom.transforms.branch", "swcgeom.transforms.branch_tree",
+                                                     "swcgeom.transforms.tree"), "decomposition and resampling code")
     col.guard(anchored, ctx, col)
     col.guard(shapes, ctx, col)
     col.guard(argdisc, ctx, col)
@@ -458,3 +464,36 @@ def one_to_one(ctx, col):
                         stmt="pair:axis-argmin", definite=True)
     if not hits:
         col.ok("R-ONE2ONE", d.qualname, d.loc(), "branches and end nodes are matched one-to-one", "no per-row arg-min in the pairing", stmt="pair:axis-argmin")
+
+
+
+def positional_trim(ctx, col):
+    """The resampled twins of a branch's two end nodes are its FIRST and LAST sample: they are dropped by position.  Dropping every sample that lies within the tolerance of an
+    end node (a mask / a filtered comprehension over all samples) also removes an interior sample wherever the branch passes through the position of one of its own ends again
+    (a loop back through the furcation, an overshoot and return to the tip): the step there becomes twice the spacing and the polyline is cut short."""
+    col.rule("R-TRIMPOS", "the duplicated end points of a resampled branch are removed by position (first / last sample), never by a value filter over all its samples; zero expected", floor=1)
+    d = ctx.repo.get_def("swcgeom.transforms.branch_tree.BranchTreeAssembler.__call__")
+    hit = None
+    for c in own_nodes(d):
+        if isinstance(c, (ast.ListComp, ast.GeneratorExp)) and len(c.generators) == 1:
+            g = c.generators[0]
+            it = g.iter
+            src = it
+            if isinstance(it, ast.Name):
+                bs = [a.value for a in own_nodes(d) if isinstance(a, ast.Assign) and len(a.targets) == 1 and isinstance(a.targets[0], ast.Name) and a.targets[0].id == it.id]
+                src = bs[0] if len(bs) == 1 else it
+            by_mask = isinstance(src, ast.Call) and (dotted(src.func) or "").rsplit(".", 1)[-1] in ("flatnonzero", "nonzero", "where", "argwhere")
+            by_filter = bool(g.ifs) and any("EPS" in norm_src(t) or "norm" in norm_src(t) or "allclose" in norm_src(t) for t in g.ifs)
+            if (by_mask or by_filter) and "detach" in norm_src(c.elt):
+                hit = c
+        if isinstance(c, ast.Subscript) and isinstance(c.value, ast.Name) and c.value.id == "br" and isinstance(c.slice, ast.Name):
+            bs = [a.value for a in own_nodes(d) if isinstance(a, ast.Assign) and len(a.targets) == 1 and isinstance(a.targets[0], ast.Name) and a.targets[0].id == c.slice.id]
+            if len(bs) == 1 and isinstance(bs[0], (ast.Compare, ast.BinOp)) and ("EPS" in norm_src(bs[0])):
+                hit = c
+    what = "duplicated end points are dropped by position, not by value"
+    if hit is not None:
+        col.bad("R-TRIMPOS", d.qualname, d.loc(hit), what,
+                f"`{norm_src(hit)[:80]}` keeps the samples of a resampled branch by a test on their distance to the end nodes: an interior sample that lands on the position of one of the "
+                f"branch's own end points (a branch that passes through its furcation or tip again) is dropped too, leaving a step of twice the spacing", stmt="trim-by-value", definite=True)
+    else:
+        col.ok("R-TRIMPOS", d.qualname, d.loc(), what, "no value filter over the samples of a branch", stmt="trim-by-value")
